@@ -27,6 +27,7 @@ type Program struct {
 	Observer    bool   `json:"observer"`
 	Lifecycle   bool   `json:"lifecycle"`
 	CloseEarly  bool   `json:"close_early"`
+	UnbindLive  bool   `json:"unbind_live"` // the lifecycle goroutine also unbinds / re-binds streams that carry traffic
 	Ops         int    `json:"ops"`
 	Seed        uint64 `json:"seed"`
 }
@@ -226,6 +227,14 @@ func runProgram(p *Program) string { //nolint:cyclop,gocognit
 				x.perturb()
 				rig.Chain.UnbindLocalStream(li)
 				rig.Chain.UnbindRemoteStream(ri)
+				if p.UnbindLive && k%2 == 1 {
+					// Unbind racing with traffic on the same stream: writers and readers keep using what Bind returned to them
+					rig.Chain.UnbindLocalStream(localInfos[1])
+					rig.Chain.UnbindRemoteStream(remoteInfos[1])
+					x.perturb()
+					rig.Chain.BindLocalStream(localInfos[1], sinks[1])
+					rig.Chain.BindRemoteStream(remoteInfos[1], srcs[1])
+				}
 				if p.CloseEarly && k == 3 {
 					closeChain() // Close racing with traffic
 				}
@@ -240,7 +249,7 @@ func runProgram(p *Program) string { //nolint:cyclop,gocognit
 		return fmt.Sprintf("observer/lifecycle goroutines did not finish (deadlock?): %s\n%s", o, allStacks())
 	}
 	// conservation (only when the interceptor was open for the whole run)
-	if !p.CloseEarly {
+	if !p.CloseEarly && !p.UnbindLive {
 		time.Sleep(3 * interval)
 		for _, m := range rig.Members {
 			if m.Stats != nil && m.Stats() != nil {
@@ -333,6 +342,7 @@ func TestConcurrentPrograms(t *testing.T) {
 			Seed:        rapid.Uint64().Draw(t, "seed"),
 		}
 		p.CloseEarly = p.Lifecycle && rapid.IntRange(0, 3).Draw(t, "closeEarly") == 0
+		p.UnbindLive = p.Lifecycle && rapid.Bool().Draw(t, "unbindLive")
 		j, _ := json.Marshal(p)
 		kit.Journal("TestConcurrentPrograms", j)
 		if v := runProgram(p); v != "" {
